@@ -77,7 +77,8 @@ template <class T, int DIM, class F> void angle_kernel(const char* name, bool a_
   const double tol = 16 * std::sqrt((double)eps<T>());      // conditioning of acos near +-1: sqrt(eps)
   for (int cls = 0; cls < 6; cls++) { AngAcc acc;
     for (int t = 0; t < n; t++) {
-      T a[3] = {0, 0, 0}, b[3] = {0, 0, 0}; int ea = (int)(g() % 41) - 20, eb = (int)(g() % 41) - 20;
+      T a[3] = {0, 0, 0}, b[3] = {0, 0, 0}; const int er = std::numeric_limits<T>::max_exponent / 2 - 12;   // every length in the range where its own square neither overflows nor underflows
+      int ea = (int)(g() % (2 * er + 1)) - er, eb = (int)(g() % (2 * er + 1)) - er; if (t % 3 == 0) { ea = (int)(g() % 41) - 20; eb = (int)(g() % 41) - 20; }
       for (int i = 0; i < DIM; i++) { T m = (T)(1.0L + (long double)(g() >> 11) / (long double)(1ULL << 53)); a[i] = std::ldexp(m, ea) * ((g() & 1) ? 1 : -1); }
       T k = std::ldexp((T)(1.0L + (long double)(g() >> 11) / (long double)(1ULL << 53)), eb - ea);
       if (cls == 0 || cls == 2) for (int i = 0; i < DIM; i++) b[i] = a[i] * k;
@@ -89,7 +90,9 @@ template <class T, int DIM, class F> void angle_kernel(const char* name, bool a_
       if (th != th) { if (!acc.nan) { for (int i = 0; i < 3; i++) { acc.wa[i] = a[i]; acc.wb[i] = b[i]; } } acc.nan++; continue; }
       if (!(th >= 0) || (Qd)th > PI * (1 + 2 * (Qd)eps<T>())) { acc.out++; continue; }
       // reference: atan2(|a x b|, a.b) on the operands as the kernel sees them (normalised operands are unit vectors of the same direction)
-      Qd cx = (Qd)a[1] * b[2] - (Qd)a[2] * b[1], cy = (Qd)a[2] * b[0] - (Qd)a[0] * b[2], cz = (Qd)a[0] * b[1] - (Qd)a[1] * b[0], dt = 0; for (int i = 0; i < 3; i++) dt += (Qd)a[i] * b[i];
+      // (operands rescaled by powers of two first: the reference itself must not overflow for extreme lengths)
+      Qd qa[3], qb[3]; { int xa = -100000, xb = -100000; for (int i = 0; i < 3; i++) { int e; if (a[i] != 0) { std::frexp(a[i], &e); xa = std::max(xa, e); } if (b[i] != 0) { std::frexp(b[i], &e); xb = std::max(xb, e); } } for (int i = 0; i < 3; i++) { qa[i] = ldexpq((Qd)a[i], -xa); qb[i] = ldexpq((Qd)b[i], -xb); } }
+      Qd cx = qa[1] * qb[2] - qa[2] * qb[1], cy = qa[2] * qb[0] - qa[0] * qb[2], cz = qa[0] * qb[1] - qa[1] * qb[0], dt = 0; for (int i = 0; i < 3; i++) dt += qa[i] * qb[i];
       Qd ref = atan2q(sqrtq(cx * cx + cy * cy + cz * cz), dt); double e = (double)fabsq((Qd)th - ref); if (e > acc.err) acc.err = e;
       T th2 = ang_rev(b, a); if (!(th2 == th) && std::fabs((double)(th2 - th)) > tol) acc.asym++;                    // symmetric in its arguments
       T a2[3], b2[3]; for (int i = 0; i < 3; i++) { a2[i] = a[i] * 8; b2[i] = b[i] / 4; } T th3 = ang(a2, b2); if (!(th3 == th)) acc.scale++;   // independent of the lengths (exact for powers of two)
